@@ -369,7 +369,7 @@ func ruleRoute(p *Prog, r *Result) {
 		"Lt":          {{"RANGE", "nil,val"}, {"EMPTY", ""}},
 		"Lte":         {{"RANGE", "nil,val"}, {"EMPTY", ""}},
 		"In":          {{"MGET", "*"}},
-		"Between":     {{"RANGE", "val,val"}},
+		"Between":     {{"RANGE", "val,val"}, {"EMPTY", ""}}, // EMPTY: lower > upper (decided sound by ATOMALG)
 	}
 	combinator := map[string]string{"And": "AND", "KWAnd": "AND", "Or": "OR", "KWOr": "OR"}
 	tpName := map[int64]string{}
